@@ -154,6 +154,20 @@ func runC03(c *Ctx) {
 		}
 	}
 
+	// ---- R6 ------------------------------------------------------------------------------------
+	c.Rule("R6", "Top-N chains are never truncated by the validator-set cap (every validator at or above the threshold stays in the set): CapValidatorSet returns its input unchanged when Top_N > 0", 1)
+	if f := c.Fn("pk.Keeper.CapValidatorSet"); f != nil {
+		topN := ACmp("Top_N > 0", token.GTR, PField(PParam("powerShapingParameters"), "Top_N"), PConstInt(0))
+		rs := reachableReturns(f, T(topN))
+		okAll := len(rs) > 0 && len(ifsTesting(f, topN.Fn)) > 0
+		for _, r := range rs {
+			if !PParam("validators")(r.Results[0]) {
+				okAll = false
+			}
+		}
+		c.Check(okAll, fk(f, "identity-for-topN"), f, "with Top_N > 0 every return yields the input set")
+	}
+
 	// ---- R5 ------------------------------------------------------------------------------------
 	c.Rule("R5", "ComputeMinPowerInTopN: rejects topN outside (0,100]; powers sorted descending; cumulative share compared with >= against topN/100; returns the loop element at which the share is first reached", 5)
 	if f := c.Fn("pk.Keeper.ComputeMinPowerInTopN"); f != nil {
@@ -218,7 +232,7 @@ func runC04(c *Ctx) {
 		cs := c.one(f, false, "pk.Keeper.CapValidatorSet")
 		cp := c.one(f, false, "pk.Keeper.CapValidatorsPower")
 		if fl != nil && pa != nil && cs != nil && cp != nil {
-			c.Check(PParam("consumerId")(arg(pa, 1)) && PIs(extractOf(fl, 0))(arg(pa, 2)), fk(f, "partition-input"), pa, "partition input = the filtered validators of this consumer")
+			c.Check(PParam("consumerId")(arg(pa, 1)) && derivesFromSlice(arg(pa, 2), extractOf(fl, 0)), fk(f, "partition-input"), pa, "partition input = the filtered (eligible) validators of this consumer, possibly re-sliced")
 			app, _ := callOf(arg(cs, 2))
 			okApp := app != nil && isCallTo(app, "builtin.append") && PIs(extractOf(pa, 0))(app.Call.Args[0]) && PIs(extractOf(pa, 1))(app.Call.Args[1])
 			c.Check(okApp, fk(f, "cap-input-priority-first"), cs, "CapValidatorSet input = append(priorityValidators, nonPriorityValidators...) in that order; found "+describe(arg(cs, 2)))
@@ -357,6 +371,38 @@ func runC04(c *Ctx) {
 			}
 		}
 	}
+}
+
+// derivesFromSlice: every root of v is src or a slice expression of (something that derives from) src.
+func derivesFromSlice(v, src ssa.Value) bool {
+	if v == nil || src == nil {
+		return false
+	}
+	for _, r := range roots(v) {
+		for i := 0; i < 4; i++ {
+			if sl, ok := r.(*ssa.Slice); ok {
+				rs := roots(sl.X)
+				if len(rs) == 1 {
+					r = rs[0]
+					continue
+				}
+				all := true
+				for _, x := range rs {
+					if !derivesFromSlice(x, src) {
+						all = false
+					}
+				}
+				if all {
+					r = src
+				}
+			}
+			break
+		}
+		if strip(r) != strip(src) {
+			return false
+		}
+	}
+	return true
 }
 
 func indexParamAddr(v ssa.Value) string {
